@@ -214,6 +214,19 @@ def simulate(ea) -> List[Dict[str, Any]]:
                     i = stack.index(want)
                     rec["expected"] = _expected(list(reversed(stack[i + 1:])), True)
                     records.append(rec)
+    # the same jumps with an enclosing construct that has EQUAL fields below the target (an unlabelled loop of the same
+    # kind with no jump recorded yet) and a try with a finally in between: a search by value (list.index on a
+    # dataclass) finds the outer one, and the jump then "leaves" a try it stays inside
+    tb = next((k for k in kinds if k.startswith("try-block") and kinds[k]["finalizer"]), None)
+    if tb is not None:
+        for what, cls in (("break", "BreakStatement"), ("continue", "ContinueStatement")):
+            for tname in loops:
+                stack = [_mk(kinds, tname, None, classes), _mk(kinds, tb, "X0", classes), _mk(kinds, tname, None, classes)]
+                want = stack[2]
+                rec = run(cls, stack, None)
+                rec.update(what=what, target_kind=tname, crossed=[], labelled=False, want=want, under=f"{tb} inside an equal {tname}")
+                rec["expected"] = []
+                records.append(rec)
     # a statement form that compiles `break` / `continue` itself (a peephole for `if (c) break;`): the same jump in
     # the same contexts has to leave the same things behind as the statement's own branch
     peephole = [nm for nm, fd in methods.items() if nm.startswith("_compile_") and nm in ea.methods]
@@ -285,7 +298,7 @@ def check(rec) -> Dict[str, Optional[str]]:
     finalizers (which, in what order, compiled against which stack)."""
     res: Dict[str, Optional[str]] = {"target": None, "operands": None, "handlers": None, "finalizers": None}
     what = rec["what"]
-    where = f"{'if (..) ' if rec.get('guarded') else ''}{what}{' L' if rec['labelled'] else ''} inside {' inside '.join(reversed(rec['crossed'])) or 'nothing else'}" + (f" inside {rec['target_kind']}" if rec["target_kind"] else "")
+    where = f"{'if (..) ' if rec.get('guarded') else ''}{what}{' L' if rec['labelled'] else ''} inside {' inside '.join(reversed(rec['crossed'])) or 'nothing else'}" + (f" inside {rec['target_kind']}" if rec["target_kind"] else "") + (f" (itself inside {rec['under']})" if rec.get("under") else "")
     if rec["status"].startswith("unsupported"):
         msg = f"{where}: the leave code uses a construct the analysis cannot interpret ({rec['status'][13:]})"
         return {k: msg for k in res}
